@@ -11,13 +11,15 @@ E2 bounded enumeration on the real Material / Substance classes.
   substance  x and X over the atoms of 8 formulas (Norm.NUMBER), also after multiplying the substance by {2, 3, 0.5}.
   trace      a tiny positive proportion {8.7e-8, 1e-9, 1e-12} at every position next to proportions {1, 78.084}, all 20
              ordered pairs and the 6 orders of one triple, common scale {1, 1e-3}, both normalisation modes (dict form).
-  string     materials given as expression strings "p <A> p <B> [p <C>]": every tuple of proportion spellings from 14
-             (decimals, integer, unsigned / signed / upper-case exponents of unequal size, two trace values) x both normalisation modes x
+  string     materials given as expression strings "p <A> p <B> [p <C>]": every tuple of proportion spellings from 17
+             (decimals, integer, unsigned / signed / upper-case exponents of unequal size, two trace values, bare trailing dot) x both normalisation modes x
              both isotope modes; oracle = closed formulas for float(spelling) + the same material given as a dict.
   history    E1 exploration of operation histories on LIVE composites: Substance CO2, Material by number and by mass
              fractions (dictionary and string input) x every sequence of 1..2 (thorough 3) operations from
              {add(existing component, n), add(new component, n), + composite sharing a component (last / not last),
-             + disjoint composite, * k}, unpruned; after the last step x and X must follow the closed formulas for the
+             + disjoint composite, + single component object (Material + Substance(..., proportion=p), Substance +
+             Element; existing / new), * k}, unpruned; operands of every non-mutating step and the live object are
+             re-read after bystander composites sharing its formulas have been constructed and checked; after the last step x and X must follow the closed formulas for the
              final amounts (reference: a dict) and equal those of a freshly constructed composite with these amounts.
 
 Oracle (from the statement only): sum x = sum X = 100; number mode: x_i = 100 p_i / sum p, X_i = 100 p_i m_i /
@@ -47,7 +49,7 @@ ASSUMPTIONS = [
 SUBSTANCES = ["H2O", "NaCl", "O2", "Ar", "CO2"]
 PROPS = [1, 2, 0.5, 78.084]
 SCALES = [1, 2, 0.1, 100, 1e-6, 1e-9, 1e-12]
-NWIN = 16                        # quick: k <= 2 complete, k = 3 one window of NWIN; thorough: everything
+NWIN = 24                        # quick: k <= 2 complete, k = 3 one window of NWIN; thorough: everything
 
 SUB_FORMULAS = ["H2O", "NaCl", "O2", "Ar", "CO2", "Ca(OH)2", "C2H5OH", "Fe{56+3}2O{-2}3"]
 SUB_ATOMS = {           # written by hand: species -> count (the oracle never parses)
@@ -61,9 +63,9 @@ SUB_MULT = [None, 2, 3, 0.5]
 # (plain decimals, integers, unsigned / signed / upper-case exponents of unequal size), compared with the closed
 # formulas for float(spelling) and with the same material given as a dictionary
 SPELLINGS = ["0.2", "3.5", "2", "78.084", "0.9999", "1.0e-4", "2.5e-3", "2e-07", "3.5e-06", "7.5e+1", "1e3", "1.5E-2",
-             "8.7e-08", "1e-12"]
+             "8.7e-08", "1e-12", "1.e-03", "2.E-2", "5."]      # last three: bare trailing dot (numpy's print format)
 STR_SUBSTANCES = {2: ["H2O", "NaCl"], 3: ["H2O", "NaCl", "O2"]}
-NWIN_STR = 12                    # quick: k = 2 complete, k = 3 one window of NWIN_STR; thorough: everything
+NWIN_STR = 20                    # quick: k = 2 complete, k = 3 one window of NWIN_STR; thorough: everything
 
 # trace components: a tiny but positive proportion next to large ones (dictionary form), at two common scales.  The
 # statement makes x and X depend on the RATIOS of the proportions only, so a component may never vanish because
@@ -84,21 +86,38 @@ HIST_STARTS = {   # id -> (class, constructor argument, amounts written by hand,
 HIST_OPS = {
     "Substance": [["add", "O", 2], ["add", "C", 1], ["add", "N", 1],
                   ["plus", [["C", 1], ["O", 1]]], ["plus", [["H", 2], ["O", 1]]], ["plus", [["N", 2]]],
-                  ["mul", 2], ["mul", 0.5]],
+                  ["mul", 2], ["mul", 0.5],
+                  ["pluscomp", "O", 2], ["pluscomp", "N", 1]],            # + Element('O', proportion=2), + Element('N')
     "Material": [["add", "H2O", 0.5], ["add", "NaCl", 1], ["add", "KCl", 0.1],
                  ["plus", [["Ar", 0.5], ["NaCl", 2]]], ["plus", [["H2O", 1], ["O2", 1]]], ["plus", [["O2", 1]]],
-                 ["mul", 2], ["mul", 0.5]],
+                 ["mul", 2], ["mul", 0.5],
+                 ["pluscomp", "H2O", 2], ["pluscomp", "KCl", 2]],          # + Substance('KCl', proportion=2)
 }
 HDEPTH = dict(quick=2, thorough=3)
+BYSTANDERS = {    # composites constructed afresh after every history; they share formulas with the live objects
+    "Substance": {"H2O": ("H2O", {"H": 2, "O": 1}), "O": ("O", {"O": 1}), "CO2": ("CO2", {"C": 1, "O": 2})},
+    "Material": {"dict": ({"H2O": 1, "NaCl": 3}, {"H2O": 1, "NaCl": 3}),
+                 "str": ("2 <H2O> 1 <KCl>", {"H2O": 2, "KCl": 1})},
+}
 
 
 def init_worker():
     from ..isolation import tables_snapshot
+    import scinumtools.materials  # noqa: all sub-modules loaded before the module-state snapshot
     tables_snapshot()
+    R.materials_state_snapshot()
+
+
+_LEAKS = []
 
 
 def _restore():
+    """put process-wide state back after a case: unit tables and module / class level containers of the materials
+    modules (a cache that crosses objects must not make the next case depend on this one)"""
     from ..isolation import tables_restore
+    leaked = R.materials_state_restore()
+    if leaked:
+        _LEAKS.extend(leaked)
     tables_restore()
 
 
@@ -241,39 +260,77 @@ def _make(cls, arg, mode, natural):
     return Material(arg, natural=natural, norm_type=_norm(mode))
 
 
+def _prefixed(bad, prefix, extra_tag):
+    if bad is not None:
+        bad["behaviour"] = prefix + ":" + bad["behaviour"]
+        bad["tags"] = sorted(set(bad["tags"]) | {extra_tag})
+    return bad
+
+
+def _component(cls, key, amount, natural):
+    """single-component right operand: an Element for a Substance, a Substance for a Material"""
+    from scinumtools.materials import Substance, Element
+    if cls == "Substance":
+        return Element(key, proportion=amount, natural=natural)
+    return Substance(key, proportion=amount, natural=natural)
+
+
 def check_history(start, natural, history):
     """apply the history to a live composite; its x and X must follow the closed formulas for the final amounts and
-    equal those of a composite freshly constructed with the same amounts"""
+    equal those of a composite freshly constructed with the same amounts; afterwards the operands of every
+    non-mutating step are re-read, bystander composites sharing formulas with the live object are constructed and
+    checked, and the live object is re-read (two composites alive at once must not influence each other)"""
     cls, arg, amounts0, mode = HIST_STARTS[start]
     case = dict(kind="history", start=start, natural=natural, history=history)
     amounts = R.model_run(amounts0, history)
     keys = list(amounts)
     tags = R.history_tags(amounts0, history) + ["class:" + cls, "norm:" + mode, "input:" + start.split(":")[-1],
                                                 "natural" if natural else "abundant"]
+    alive = []
 
     def run():
         obj = _make(cls, arg, mode, natural)
         return R.real_run(obj, history, lambda pairs: _make(cls, dict((k, v) for k, v in pairs), mode, natural),
-                          cls == "Material")
+                          cls == "Material", make_component=lambda k, a: _component(cls, k, a, natural),
+                          counts=amounts0, alive=alive)
     o = outcome(run)
     if o[0] == "err":
         return failure("history", case, "history executed", list(o), tags, "raises:" + o[1]), amounts
-    got = _read(o[1], keys)
+    final = o[1]
+    got = _read(final, keys)
     bad = _compare("history", case, tags, keys, [amounts[k] for k in keys], mode, got)
     if bad:
         return bad, amounts
+    for role, obj, c in alive:
+        ks = list(c)
+        bad = _prefixed(_compare("history", case, tags, ks, [c[k] for k in ks], mode, _read(obj, ks)),
+                        role + "-changed", role)
+        if bad:
+            return bad, amounts
     o2 = outcome(_make, cls, dict(amounts), mode, natural)
-    if o2[0] == "err":
-        return None, amounts
-    got2 = _read(o2[1], keys)
-    if got2[0] == "err":
-        return None, amounts
-    for i in range(len(keys)):
-        if not R.close(got[1][i], got2[1][i], 1e-10):
-            return failure("history", case, dict(x=got2[1]), dict(x=got[1]), tags, "x-differs-from-fresh"), amounts
-        if not R.close(got[2][i], got2[2][i], 1e-10):
-            return failure("history", case, dict(X=got2[2]), dict(X=got[2]), tags, "X-differs-from-fresh"), amounts
-    return None, amounts
+    if o2[0] == "ok":
+        got2 = _read(o2[1], keys)
+        if got2[0] != "err":
+            for i in range(len(keys)):
+                if not R.close(got[1][i], got2[1][i], 1e-10):
+                    return failure("history", case, dict(x=got2[1]), dict(x=got[1]), tags,
+                                   "x-differs-from-fresh"), amounts
+                if not R.close(got[2][i], got2[2][i], 1e-10):
+                    return failure("history", case, dict(X=got2[2]), dict(X=got[2]), tags,
+                                   "X-differs-from-fresh"), amounts
+    for name, (parg, pam) in BYSTANDERS[cls].items():
+        o3 = outcome(_make, cls, parg, mode, natural)
+        if o3[0] == "err":
+            return failure("history", case, "bystander %s constructed" % name, list(o3),
+                           tags + ["bystander:" + name], "bystander:raises:" + o3[1]), amounts
+        ks = list(pam)
+        bad = _prefixed(_compare("history", case, tags, ks, [pam[k] for k in ks], mode, _read(o3[1], ks)),
+                        "bystander", "bystander:" + name)
+        if bad:
+            return bad, amounts
+    bad = _prefixed(_compare("history", case, tags, keys, [amounts[k] for k in keys], mode, _read(final, keys)),
+                    "after-bystanders", "re-read")
+    return bad, amounts
 
 
 def _trace_cases(subs):
@@ -322,6 +379,15 @@ def _selected(subs, props, scale, norm, nat, win):
 
 
 def run_shard(desc):
+    sh = _run_shard(desc)
+    if _LEAKS:
+        sh.count("module-state-restored", len(_LEAKS))
+        sh.add_extra("module_state_leaks", sorted(set(_LEAKS))[:10])
+        del _LEAKS[:]
+    return sh
+
+
+def _run_shard(desc):
     sh = Shard(PROPERTY)
     if desc[0] == "substance":
         for f in SUB_FORMULAS:
@@ -441,7 +507,8 @@ def finish(total, tier, seed):
     for key in ("string:k=2", "string:k=3", "string:signed-exponent", "trace:k=2", "trace:k=3"):
         if not h.get(key):
             raise HarnessError("vacuous run: no case under " + key)
-    for key in ("add-existing", "add-new", "plus-shared", "plus-shared-last", "plus-disjoint", "mul"):
+    for key in ("add-existing", "add-new", "plus-shared", "plus-shared-last", "plus-disjoint", "mul",
+                "pluscomp-existing", "pluscomp-new"):
         if not h.get("history:last:" + key):
             raise HarnessError("vacuous run: no history ends with " + key)
     hstates = total.sets.get("hstates", set())
@@ -462,7 +529,9 @@ def finish(total, tier, seed):
                            isotope_modes=["natural", "abundant"],
                            window="all" if tier == "thorough" else
                            "k=2 complete + window %d of %d of k=3" % (seed % NWIN_STR, NWIN_STR)),
+        module_state_restored=h.get("module-state-restored", 0),
         history_bounds=dict(starts=sorted(HIST_STARTS), operations=HIST_OPS, depth=HDEPTH[tier],
+                            bystanders={k: sorted(v) for k, v in BYSTANDERS.items()},
                             isotope_modes=["natural", "abundant"], pruning="none (every history executed)"),
         window="all" if tier == "thorough" else "k<=2 complete + window %d of %d of k=3" % (seed % NWIN, NWIN),
         exhaustive=(tier == "thorough"),
@@ -475,16 +544,17 @@ MANIFEST = dict(
     text="Bounded-exhaustive enumeration of mixtures on the real Material class: every ordered tuple of 1-3 substances "
          "from {H2O, NaCl, O2, Ar, CO2} x proportions {1, 2, 0.5, 78.084}^k x common scaling {1, 2, 0.1, 100, 1e-6, 1e-9, "
          "1e-12} x both normalisation modes x both isotope modes (117 040 materials; quick: k<=2 complete plus one "
-         "seed-selected window of 16 for k=3); trace proportions {8.7e-8, 1e-9, 1e-12} at every position next to "
+         "seed-selected window of 24 for k=3); trace proportions {8.7e-8, 1e-9, 1e-12} at every position next to "
          "{1, 78.084} at scales {1, 1e-3}. x and X are compared with the closed formulas computed from the UNscaled proportions "
          "(rel 1e-10), sums with 100 (abs 1e-9); every unscaled number-fraction material is rebuilt from its reported "
          "mass fractions and must report the same x and X (rel 1e-9); the same formulas are checked over the atoms of "
-         "8 substances and their multiples. Materials written as expression strings: all 14^2 (quick: + one window of "
-         "12 of the 14^3) tuples of proportion spellings incl. signed, unsigned and upper-case exponents and trace "
+         "8 substances and their multiples. Materials written as expression strings: all 17^2 (quick: + one window of "
+         "20 of the 17^3) tuples of proportion spellings incl. signed, unsigned and upper-case exponents and trace "
          "values x modes, vs the "
          "closed formulas and the dictionary twin. Live composites: every history of <= 2 (thorough 3) operations "
-         "{add existing/new, + sharing/disjoint, * k} on 5 start objects x 2 isotope modes, vs closed formulas and a "
-         "freshly constructed composite.",
+         "{add existing/new, + sharing/disjoint composite, + component object, * k} on 5 start objects x 2 isotope "
+         "modes, vs closed formulas and a freshly constructed composite, with re-read of operands and of the live "
+         "object after fresh bystander composites sharing its formulas were built.",
     note="Trusted: the component masses reported by data_components() (property C10), float() as the meaning of a "
          "proportion spelling. Not covered: the avg row, proportions outside the alphabet, more than 3 components in "
          "a constructor, histories beyond the depth bound.",
